@@ -4,14 +4,17 @@
 // the handler invocations and the caller's status.
 //
 // case inputs  = (SRVOPS CLIOPS MSGS PROBES)
-//   op     = (ssub nPARENT PLUGS) | (sroute sKIND nROUTER nHID zHSTAT PLUGS)
-//          | (sunk sKIND nHID zHSTAT PLUGS) | (sleft PLUGS) | (sright PLUGS)
-//   plugin = (nID (nSTAGE ...) (nVETOSTAGE ...))        kind = scall | spush
-//   msg    = (sKIND nHID)                                (nHID 9999 = unregistered path)
-//   probe  = (nOLDCAP nNEWLEN)
+//
+//	op     = (ssub nPARENT PLUGS) | (sroute sKIND nROUTER nHID zHSTAT PLUGS)
+//	       | (sunk sKIND nHID zHSTAT PLUGS) | (sleft PLUGS) | (sright PLUGS)
+//	plugin = (nID (nSTAGE ...) (nVETOSTAGE ...))        kind = scall | spush
+//	msg    = (sKIND nHID)                                (nHID 9999 = unregistered path)
+//	probe  = (nOLDCAP nNEWLEN)
+//
 // observations = ((MSGOBS ...) (nCAP ...))
-//   msgobs = (sWRITTEN CLITRACE CLIPRH SRVPRH SRVTRACE (nHID ...) zSTATUS)
-//   trace  = ((nPLUG nSTAGE) ...)     prh = (nPLUG ...)
+//
+//	msgobs = (sWRITTEN CLITRACE CLIPRH SRVPRH SRVTRACE (nHID ...) zSTATUS)
+//	trace  = ((nPLUG nSTAGE) ...)     prh = (nPLUG ...)
 package main
 
 import (
@@ -555,6 +558,18 @@ func (g *gen) newPlug(side int) *plug {
 	return p
 }
 
+// plugsN makes exactly n fresh plugins (n < 0: a random number).
+func (g *gen) plugsN(side, n int) []*plug {
+	if n < 0 {
+		return g.plugs(side)
+	}
+	ps := make([]*plug, n)
+	for i := range ps {
+		ps[i] = g.newPlug(side)
+	}
+	return ps
+}
+
 func (g *gen) plugs(side int) []*plug {
 	r := g.cfg.Rng
 	n := 0
@@ -622,12 +637,31 @@ func runC09(cfg *RunCfg) {
 		routers := []*routerRec{{depth: 0, used: [2][]bool{make([]bool, 3), make([]bool, 3)}}}
 		var unk [2]*handlerRec
 		nops := 3 + r.Intn(12)
-		shape := r.Intn(4) // 0 mixed, 1 deep chain first, 2 wide, 3 mixed
+		shape := r.Intn(4) // 0, 3 mixed; 1 deep chain first; 2 siblings under a group chain whose
+		// middle list has grown in two steps (the arrangement in which an append onto the
+		// parent's slice would have spare capacity to write into)
+		if shape == 2 && nops < 6 {
+			nops = 6
+		}
+		forcedN := -1
 		for k := 0; k < nops; k++ {
 			var o *op
 			c := r.Intn(100)
+			forcedN = -1
 			if shape == 1 && k < 3 {
 				c = 0
+			}
+			if shape == 2 {
+				switch {
+				case k == 0:
+					c, forcedN = 0, 2+r.Intn(2)
+				case k == 1:
+					c, forcedN = 0, 1
+				case k < 2+2+r.Intn(2) && k < 5:
+					c, forcedN = 30, 1+r.Intn(2)
+				case k == 5:
+					c = 90
+				}
 			}
 			switch {
 			case c < 28: // SubRoute
@@ -638,10 +672,10 @@ func runC09(cfg *RunCfg) {
 					}
 				}
 				parent := cand[r.Intn(len(cand))]
-				if shape == 1 && k < 3 {
+				if (shape == 1 && k < 3) || (shape == 2 && k < 2) {
 					parent = len(routers) - 1
 				}
-				o = &op{kind: "sub", parent: parent, plugs: g.plugs(sideSrv)}
+				o = &op{kind: "sub", parent: parent, plugs: g.plugsN(sideSrv, forcedN)}
 				prefix := fmt.Sprintf("r%d", len(routers))
 				var sub *erpc.SubRouter
 				if parent == 0 {
@@ -652,7 +686,7 @@ func runC09(cfg *RunCfg) {
 				routers = append(routers, &routerRec{sub: sub, depth: routers[parent].depth + 1, used: [2][]bool{make([]bool, 3), make([]bool, 3)}})
 			case c < 68: // Route*
 				ri := r.Intn(len(routers))
-				if r.Intn(2) == 0 {
+				if r.Intn(2) == 0 || forcedN >= 0 {
 					ri = len(routers) - 1 // favour deep routers
 				}
 				hk := r.Intn(2)
@@ -667,7 +701,7 @@ func runC09(cfg *RunCfg) {
 					continue
 				}
 				routers[ri].used[hk][fi] = true
-				h := &handlerRec{hid: len(tr.handlers), kind: hk, router: ri, own: g.plugs(sideSrv), live: true}
+				h := &handlerRec{hid: len(tr.handlers), kind: hk, router: ri, own: g.plugsN(sideSrv, forcedN), live: true}
 				if r.Intn(8) == 0 {
 					h.stat = int32(600 + r.Intn(50))
 				}
@@ -715,6 +749,21 @@ func runC09(cfg *RunCfg) {
 				o = &op{kind: "right", plugs: g.plugs(sideSrv)}
 				srv.PluginContainer().AppendRight(insts(o.plugs)...)
 			}
+			srvOps = append(srvOps, o)
+			sp.apply(o)
+		}
+		if len(tr.handlers) == 0 { // every tree has at least one registered handler
+			ri := len(routers) - 1
+			h := &handlerRec{hid: 0, kind: 0, router: ri, own: g.plugs(sideSrv), live: true}
+			o := &op{kind: "route", parent: ri, hkind: 0, hid: 0, plugs: h.own}
+			if ri == 0 {
+				h.path = srv.RouteCallFunc(callFuncs[0], insts(h.own)...)
+			} else {
+				h.path = routers[ri].sub.RouteCallFunc(callFuncs[0], insts(h.own)...)
+			}
+			routers[ri].used[0][0] = true
+			tr.handlers = append(tr.handlers, h)
+			tr.byPath[0][h.path] = h
 			srvOps = append(srvOps, o)
 			sp.apply(o)
 		}
@@ -795,6 +844,11 @@ func runC09(cfg *RunCfg) {
 				} else {
 					other = append(other, h)
 				}
+			}
+			if len(same) == 0 && len(other) > 0 && r.Intn(5) > 0 { // mostly use the kind that has handlers
+				m.push = !m.push
+				hk = 1 - hk
+				same, other = other, same
 			}
 			c := r.Intn(100)
 			switch {
@@ -989,6 +1043,7 @@ func runC09(cfg *RunCfg) {
 		w.Add(VL(VL(opsV...), VL(cliV...), VL(msgV...), VL(probeIn...)), VL(VL(obsV...), VL(probeObs...)))
 		st.Count(fmt.Sprintf("tree:routers=%d", len(routers)))
 		st.Count(fmt.Sprintf("tree:vetoP=%v", g.vetoP))
+		st.Count(fmt.Sprintf("tree:shape=%d", shape))
 		if nontrivial {
 			distinct.Add(strings.Join(opsV, " ") + "|" + strings.Join(msgV, " "))
 		}
